@@ -119,6 +119,10 @@ def matcher(case):
     return k if k in ("F9", "F10", "F23") else None
 
 
+DECOR_PAIRS = []
+CR_BYTE = b"\r"      # the harness device ends its lines with CR NL: the theorems' `LineDev` text is that output without the CRs
+
+
 def compare(ck, base, bres, tag, v, vres, modelq):
     ob, ov = observables(base, bres), observables(v, vres)
     case = {"base": base.describe(), "variant": v.describe(), "tag": tag}
@@ -138,6 +142,9 @@ def compare(ck, base, bres, tag, v, vres, modelq):
     req = model_request(v, vres)
     if req is not None:
         modelq.append((req, real_reply(vres), v.describe()))
+    if v.decor and not v.echo_junk and len(bres.dev_outputs) == len(vres.dev_outputs):
+        # the hypothesis `Decorates` of the decorated-session theorems, on the bursts this run really put on the wire
+        DECOR_PAIRS.extend((p, d) for p, d in zip([bres.init_avail, *bres.dev_outputs], [vres.init_avail, *vres.dev_outputs]) if d != p)
 
 
 def run(tier, seed):
@@ -157,8 +164,12 @@ def run(tier, seed):
     except Exception as e:
         ck.proof_broken("translator gen/c01.py", repr(e))
     ck.prove("ScrapliProps.C02", lemma_files=["ScrapliProps/C01Lemmas.lean", "ScrapliProps/C01Interact.lean", "ScrapliProps/C01.lean", "ScrapliModel/Channel/Chan.lean", "ScrapliModel/Channel/Basic.lean", "ScrapliModel/Channel/Ansi.lean"])
+    # whole sessions over a decorating device (decorated_session_exact, decoration_invisible) and the validated check of their hypothesis
+    ck.prove("ScrapliProps.C02Sessions", lemma_files=["ScrapliProps/C02Decor.lean", "ScrapliProps/C02Timed.lean"])
+    ck.prove("ScrapliProps.C02DecorCheck")
     if tier == "thorough":
         ck.leanchecker("ScrapliProps.C02")
+        ck.leanchecker("ScrapliProps.C02Sessions")
     # known findings: replay stored witnesses
     for f in ck.findings:
         w = f.get("witness")
@@ -246,6 +257,18 @@ def run(tier, seed):
     except Exception as e:
         ck.proof_broken("model driver Drv/C01.lean", repr(e))
         outs = []
+    # every decorated burst of the runs above against the validated Lean check of the theorems' hypothesis (advisory: a burst outside
+    # the hypothesis is outside the THEOREM, the oracle and the model replay judged the run all the same)
+    pairs = list(dict.fromkeys(DECOR_PAIRS))[: (400 if tier == "quick" else 6000)]
+    DECOR_PAIRS.clear()
+    try:
+        douts = run_model("C01", [f"decor {hexs(p.replace(CR_BYTE, b''))} {hexs(d)}" for p, d in pairs], native=True) if pairs else []
+    except Exception as e:
+        ck.proof_broken("model driver Drv/C01.lean (decor)", repr(e))
+        douts = []
+    ck.extra["decorated_bursts_checked_against_Decorates"] = len(douts)
+    ck.extra["decorated_bursts_inside_hypothesis"] = sum(1 for o in douts if o == "1")
+    ck.extra["decorated_bursts_outside_hypothesis_sample"] = [(hexs(p), hexs(d)) for (p, d), o in zip(pairs, douts) if o != "1"][:3]
     ck.extra["model_replays_with_driver_level_send_commands"] = sum(1 for q in modelq if re.search(r"(^|;| )sc:", q[0]))
     ck.extra["model_replays_with_timed_op"] = sum(1 for q in modelq if "sar:" in q[0])
     ck.extra["model_replays_with_pauses_in_timed_op"] = sum(1 for q in modelq if re.search(r"sar:[^;]*:[01]*1[01]*(;|$)", q[0]))
